@@ -64,7 +64,7 @@ def kill_group(p):
 def run_shards(prop, tier, seed, plan, only=None, only_hashseed=None):
     nshards = 1 if only is not None else min(plan.get("shards", NPROC), NPROC * 4)
     par = min(plan.get("parallel", NPROC), NPROC)
-    watchdog = plan.get("watchdog_s", 1800)
+    watchdog = max(plan.get("watchdog_s", 0), plan.get("shard_budget_s", 600) + 900)
     tmp = tempfile.mkdtemp(prefix="gaftools-vf-run-")
     pending = list(range(nshards))
     running = {}
